@@ -37,7 +37,7 @@ def run_case(part, m, rng, campaign):
     undo = fake_kernel.install()
     try:
         s = isotp.socket()
-        fk = s._socket
+        fk = s.real_socket() if hasattr(s, 'real_socket') else s._socket
         kq(m, 'S reset'); kq(m, 'K reset')
         prior = rng.choice(['none', 'pad', 'txstmin', 'ext', 'ext_rx', 'fc', 'all'])
         calls = []
